@@ -252,6 +252,7 @@ func genProgram(r *core.Rand, typ, backing string, o progOpts) *AProg {
 		return v
 	}
 	bulkLeft := 3
+	abortLeft := 2
 	for len(p.Ops) < o.nOps {
 		vi := r.Intn(len(sim.views))
 		v := sim.views[vi]
@@ -259,6 +260,12 @@ func genProgram(r *core.Rand, typ, backing string, o progOpts) *AProg {
 		var op AOp
 		choice := r.Intn(100)
 		switch {
+		case abortLeft > 0 && v.size() > 1 && r.Bool(0.05):
+			// an element-by-element sweep that its caller abandons: ApplyFunc1 of the view onto itself with the identity,
+			// whose callback panics at the St-th element (recovered by the caller). Whatever progress the sweep made, the
+			// contents are unchanged - and every later operation must behave as if the sweep had never been started
+			op = AOp{K: "abortedsweep", V: vi, St: r.IntRange(1, v.size()-1)}
+			abortLeft--
 		case choice < 28 && len(sim.views) < o.maxViews && v.size() > 0:
 			// slice, biased to stepping
 			loc, dims, step := make([]int, ndv), make([]int, ndv), make([]int, ndv)
@@ -605,7 +612,7 @@ func (s *shadowSim[T]) apply(op *AOp, tmp **sView[T]) {
 		} else {
 			s.lastTransit = true
 		}
-	case "unroll", "maxmin":
+	case "unroll", "maxmin", "abortedsweep":
 	case "bulk":
 		src := srcView(op.Dims)
 		s.lastSrc = src
